@@ -3293,8 +3293,10 @@ class Parameters:
                 # dealing with object and it's been set on this object
                 value = cls_or_slf._param__private.values[name]
             else:
-                # dealing with class or isn't set on the object
-                value = param_obj.default
+                # dealing with class or isn't set on the object: attribute
+                # access then returns the default of the class Parameter
+                # (an instance-level copy may hold a stale default)
+                value = self_.cls.param[name].default
 
         return value
 
